@@ -54,8 +54,8 @@ func (s lcStep) String() string {
 		return fmt.Sprintf("cause#%d(%s)", s.Sess, s.Cause)
 	case "two", "gateOnClose":
 		return fmt.Sprintf("%s#%d(%s,%s)", s.Kind, s.Sess, s.Cause, s.Cause2)
-	case "gateClose":
-		return fmt.Sprintf("gateClose#%d(%s)", s.Sess, s.Cause)
+	case "gateClose", "sendWindow":
+		return fmt.Sprintf("%s#%d(%s)", s.Kind, s.Sess, s.Cause)
 	case "advance":
 		return fmt.Sprintf("advance(%v)", s.D)
 	case "traffic", "sendAfterClose":
@@ -140,7 +140,7 @@ func genLC(rt *rapid.T, gates bool, known map[string]bool, col *Collector) []lcS
 			kinds = nil
 		}
 		if nsess > 0 {
-			kinds = append(kinds, "cause", "two", "traffic", "traffic", "advance", "advance", "sendAfterClose")
+			kinds = append(kinds, "cause", "two", "traffic", "traffic", "advance", "advance", "sendAfterClose", "sendWindow")
 			if rapid.IntRange(0, 3).Draw(rt, l+".sc") == 0 {
 				kinds = append(kinds, "serverClose", "serverClose")
 			}
@@ -183,12 +183,15 @@ func genLC(rt *rapid.T, gates bool, known map[string]bool, col *Collector) []lcS
 			}
 			alive[nsess] = true
 			nsess++
-		case "cause", "two", "gateOnClose", "gateClose", "traffic", "sendAfterClose":
+		case "cause", "two", "gateOnClose", "gateClose", "traffic", "sendAfterClose", "sendWindow":
 			st.Sess = rapid.IntRange(0, nsess-1).Draw(rt, l+".sess")
 			st.Cause = rapid.SampledFrom(lcCauses).Draw(rt, l+".cause")
 			st.Cause2 = rapid.SampledFrom(lcCauses).Draw(rt, l+".cause2")
 			if k == "gateClose" {
 				st.Cause = rapid.SampledFrom([]string{"drop", "closePacket", "wrongHeartbeat", "appCloseNow"}).Draw(rt, l+".gc")
+			}
+			if k == "sendWindow" {
+				st.Cause = rapid.SampledFrom([]string{"appCloseNow", "appCloseNow", "drop", "closePacket", "wrongHeartbeat", "garbage", "appClose"}).Draw(rt, l+".sw")
 			}
 			if k == "gateOnClose" {
 				// first cause must reach OnClose synchronously from a goroutine that can be parked
@@ -855,6 +858,39 @@ func runLC(steps []lcStep) (*lcWorld, bubbleResult) {
 						lw.f03("%s: message from a healthy session's client was not delivered", what)
 					}
 				}
+			case "sendWindow":
+				// a close cause takes effect while the application is inside Send, after Send's own ready-state
+				// test: a packetCreate listener (it runs on the sending goroutine) lets the cause happen and
+				// waits until the server has dealt with it; everything Send does afterwards is "after the close"
+				if s == nil || s.sr == nil || len(s.sr.Closes) > 0 || s.sr.Sock.ReadyState() != "open" {
+					break
+				}
+				fn := lw.causeFn(s, st.Cause)
+				if fn == nil {
+					break
+				}
+				s.addCause(st.Cause)
+				closeIdx := -1
+				s.sr.Sock.Once("packetCreate", func(...any) {
+					fn()
+					Settle()
+					if len(s.sr.Closes) > 0 {
+						closeIdx = len(s.sr.Events)
+					}
+				})
+				sm := w.AppSend(s.sr, msgT("sent while the session closes"), nil, true, 0)
+				Settle()
+				if closeIdx >= 0 {
+					lw.stats["session-closed-inside-Send"] = true
+					lw.stats["activity-after-close"] = true
+					for _, e := range s.sr.Events[closeIdx:] {
+						lw.f03("%s: the session closed (%v) while Send was between its ready-state test and its flush; afterwards event %v", what, s.sr.Closes, e)
+						break
+					}
+					if len(sm.CbAt) > 0 {
+						lw.f03("%s: callback of a Send overtaken by the close ran", what)
+					}
+				}
 			case "sendAfterClose":
 				if s == nil || s.sr == nil || len(s.sr.Closes) == 0 {
 					break
@@ -961,7 +997,7 @@ func lcKnown() map[string]bool {
 func TestC03Lifecycle(t *testing.T) {
 	curT = t
 	col := NewCollector("TestC03Lifecycle",
-		"rapid: histories of 2-14 steps over <=3 sessions (polling/websocket/webtransport, revision 3/4; heartbeat 5s/3s with clients that answer every ping): handshake, traffic, a close cause (peer close packet/frame, connection drop, overlapping poll, heartbeat in the wrong direction, undecodable packet, client falling silent, Close(false), Close(true)), two causes from two goroutines at the same instant, server shutdown, time advances (1ms..31s), activity after the close event (Send with callback, client packets, Close again, timers); gated variants place a second cause inside OnClose's test-then-set window, a cause inside Close's window, and a connection drop between session construction and its registration; oracle: ready state never moves backwards (sampled at every event and quiescent point), the application is handed the session in state open, exactly one close event iff a cause occurred, its reason is one the injected causes map to, no event/callback after it, no close without a cause and such sessions are open at the end. non-trivial: >=2 causes on one session or at one instant or inside a window, a cause during the handshake, or activity after the close").Use(t)
+		"rapid: histories of 2-14 steps over <=3 sessions (polling/websocket/webtransport, revision 3/4; heartbeat 5s/3s with clients that answer every ping): handshake, traffic, a close cause (peer close packet/frame, connection drop, overlapping poll, heartbeat in the wrong direction, undecodable packet, client falling silent, Close(false), Close(true)), two causes from two goroutines at the same instant, server shutdown, time advances (1ms..31s), activity after the close event (Send with callback, client packets, Close again, timers), a close cause taking effect inside Send (between its ready-state test and its flush, placed there by a packetCreate listener); gated variants place a second cause inside OnClose's test-then-set window, a cause inside Close's window, and a connection drop between session construction and its registration; oracle: ready state never moves backwards (sampled at every event and quiescent point), the application is handed the session in state open, exactly one close event iff a cause occurred, its reason is one the injected causes map to, no event/callback after it, no close without a cause and such sessions are open at the end. non-trivial: >=2 causes on one session or at one instant or inside a window, a cause during the handshake, or activity after the close").Use(t)
 	known := lcKnown()
 	for _, gated := range []bool{false, true} {
 		rapid.Check(t, func(rt *rapid.T) {
@@ -980,7 +1016,7 @@ func TestC03Lifecycle(t *testing.T) {
 			}
 		})
 	}
-	req := []string{"carrier.polling", "carrier.websocket", "carrier.webtransport", "two-causes-same-instant", ">=2-causes-on-one-session", "activity-after-close", "stayed-open", "server-close"}
+	req := []string{"session-closed-inside-Send", "carrier.polling", "carrier.websocket", "carrier.webtransport", "two-causes-same-instant", ">=2-causes-on-one-session", "activity-after-close", "stayed-open", "server-close"}
 	if !known[sigDoubleClose] {
 		req = append(req, "second-cause-inside-OnClose-window")
 	}
